@@ -25,6 +25,9 @@ Abstractions
 * Objects of `UodCommand` are kept for ever in `objs` (Python keeps them alive through tracking states);
   `inMap` says whether the object is the entry of `uod.command_instances` under its name.
 * Request and instance identifiers are ordinals.
+* The paused flag of the run state (Pause / Unpause commands: model M1) is an input (op `pause`), except that an
+  exception out of the command phase sets it and Start / Stop / Restart clear it, as the code does.  While it is
+  set, interpreter-sourced UOD requests are not executed (`_execute_uod_command` returns at once).
 -/
 namespace OPM.CmdMgr
 
@@ -120,6 +123,8 @@ structure State where
   resetTo : Option (List Req) := none
   started : Bool := false
   stopping : Bool := false
+  /-- `_runstate_paused` (Pause / Unpause / error pause: model M1; here an input, op `pause`) -/
+  paused : Bool := false
   sys : Sys := .stopped
   runId : Option Nat := none
   nextRun : Nat := 0
@@ -356,6 +361,8 @@ def runCmd (s : State) (r : Req) (k : Nat) (c : Cmd) : State × Bool :=
 
 /-- `_execute_uod_command` (+ the handler of `_execute_command`); `true` = an exception leaves the loop. -/
 def executeUod (s : State) (r : Req) (k : Nat) : State × Bool :=
+  -- "Pause inhibits execution of the method's instructions; only commands from the user run while paused"
+  if s.paused then (s, false) else
   let s1 := cancelSame r k s.executing s
   let s2 := cancelOverlap r k s1.executing s1
   let p := obtainCmd s2 r k
@@ -372,11 +379,12 @@ def cancelAll (src : Name) : List Req → State → State
 `_stop_interpreter` (new interpreter, tracking and command manager). -/
 def endRun (s : State) (carry : List Req) : State :=
   { s with tracking := false, stopLog := s.stopLog ++ [s.track], simulated := [], sys := .stopped,
-           runId := none, started := false, stopping := false, track := [], resets := s.resets + 1,
+           runId := none, started := false, stopping := false, paused := false, track := [],
+           resets := s.resets + 1,
            resetTo := some carry }
 
 def beginRun (s : State) : State :=
-  { s with started := true, runId := some s.nextRun, nextRun := s.nextRun + 1, tracking := true,
+  { s with started := true, paused := false, runId := some s.nextRun, nextRun := s.nextRun + 1, tracking := true,
            sys := .running }
 
 /-- The resident command finished: `finalize()` disposes it, the request is done. -/
@@ -452,12 +460,12 @@ def merged (s : State) : State :=
   { s with executing := s.queue.reverse ++ s.executing, queue := [], done := [], resetTo := none }
 
 /-- The end of the tick: the new manager after Stop/Restart replaced it, else `_commit_commands_done`;
-`Engine.tick`: an exception out of the command phase → `set_error_state` (System State := Paused). -/
+`Engine.tick`: an exception out of the command phase → `set_error_state` (System State := Paused, paused). -/
 def finish (s : State) (raised : Bool) : State :=
   let s := match s.resetTo with
     | some l => { s with executing := l, done := [], queue := [], resetTo := none, restartPending := none }
     | none => commit s
-  if raised then { s with sys := .running } else s
+  if raised then { s with sys := .running, paused := true } else s
 
 /-- `CommandManager.tick`: drain the queue, run the loop over a snapshot of `cmd_executing`, commit. -/
 def tick (s : State) : State × Bool :=
@@ -555,6 +563,7 @@ inductive Op where
   | cancel (i : Nat)
   | force (i : Nat)
   | sim (j : Nat)
+  | pause (b : Bool)
 deriving DecidableEq, Repr
 
 def step (s : State) : Op → State × Reply
@@ -564,6 +573,7 @@ def step (s : State) : Op → State × Reply
   | .cancel i => cancel s i
   | .force i => force s i
   | .sim j => (simulate s j, .ok)
+  | .pause b => ({ s with paused := b }, .ok)
 
 def run (s : State) (ops : List Op) : State := ops.foldl (fun s o => (step s o).1) s
 
